@@ -243,6 +243,9 @@ type half struct {
 	rng     *rand.Rand
 	arrival time.Time
 	pending int
+
+	// whole makes every write arrive as one segment.
+	whole bool
 }
 
 func newHalf(n *Net, name string) (h *half) {
@@ -270,7 +273,7 @@ func (h *half) scheduleTimed(k int) {
 	// Called with h.mu held; k bytes were appended to inflight.
 	for k > 0 {
 		seg := k
-		if h.n.Faults.Segment && k > 1 {
+		if h.n.Faults.Segment && k > 1 && !h.whole {
 			switch h.rng.IntN(5) {
 			case 1:
 				seg = 1
@@ -496,6 +499,13 @@ func (c *Conn) Write(b []byte) (n int, err error) {
 	}
 
 	return len(b), nil
+}
+
+// WholeWrites makes every later write of this side arrive as one segment.
+func (c *Conn) WholeWrites() {
+	c.wr.mu.Lock()
+	c.wr.whole = true
+	c.wr.mu.Unlock()
 }
 
 // CloseWrite half-closes the connection (FIN after pending bytes).
